@@ -72,6 +72,45 @@ def fold_check(chk, rule, site, qn, dim_expr, base_name, what, use_axis_to_dim=F
         chk.ok(rule, site, f"{qn}: reduction dims = all but the kept axis for {n} (ndim, axis) instances")
 
 
+def shape_route(chk, site, qn, numerator, base_name, path) -> bool:
+    """The per-axis range is not a bare amax call (a reduction over a flattened / reshaped view): decide C03.R1 / R2 in the shape domain
+    (scales.shape_eval) for every (ndim, axis) instance that can take this path. False = outside the domain, the caller says undecided."""
+    results = []
+    for ndim in (2, 3, 4):
+        for axis in (0, -1):
+            feasible = True
+            for c, truth, _ in (path.conds if path is not None else []):
+                try:
+                    v = scales.fold_dims(c, ndim, axis, base_name)
+                except Exception:
+                    continue
+                if isinstance(v, bool) and v != truth:
+                    feasible = False
+            if not feasible:
+                continue
+            try:
+                results.append((ndim, axis, scales.shape_eval(numerator, ndim, axis, base_name)))
+            except AnalysisError:
+                return False
+    if not results:
+        return False
+    wrong = []
+    for ndim, axis, r in results:
+        k = axis % ndim
+        want = [frozenset({k}) if i == k else frozenset() for i in range(ndim)]
+        if r.groups != want or r.reduced != frozenset(range(ndim)) - {k}:
+            wrong.append((ndim, axis, [sorted(g) for g in r.groups]))
+    raw = [(n, a) for n, a, r in results if r.raw_reduced]
+    chk.require("C03.R2", site, not raw, f"{qn}: reduces |{base_name}| (shape domain, {len(results)} (ndim, axis) instances)", qn, "abs before max", "a row whose largest magnitude is negative saturates")
+    if wrong:
+        ndim, axis, got = wrong[0]
+        chk.bad("C03.R1", site, qn, "symmetric reduction dims", f"{qn}: for ndim={ndim}, axis={axis} the dims of the range span the base dims {got}: expected extent 1 everywhere but the kept axis, which keeps its own extent and nothing else ({len(wrong)} of {len(results)} instances wrong)",
+                f"a rank-{ndim} tensor quantized along axis {axis}: the scale has more than one value per index of the kept axis, or rows share a range")
+    else:
+        chk.ok("C03.R1", site, f"{qn}: shape domain: the range keeps exactly the kept axis and folds every other dim for {len(results)} (ndim, axis) instances")
+    return True
+
+
 def run(chk):
     for k, v in RULES.items():
         chk.rule(k, v)
@@ -107,7 +146,8 @@ def run(chk):
             continue
         r = scales.reduction(e.left)
         if r is None:
-            chk.unknown("C03.R2", site, f"{qn}: numerator `{U(e.left)[:60]}` is not a max/amax reduction")
+            if f.get(f"{axis} is None") is True or not shape_route(chk, site, qn, e.left, b, p):
+                chk.unknown("C03.R2", site, f"{qn}: numerator `{U(e.left)[:60]}` is not a max/amax reduction")
             continue
         chk.require("C03.R2", site, r.n_abs >= 1 and r.source == b, f"{qn}: reduces |{b}| (abs x{r.n_abs} of `{r.source}`)", qn, "abs before max", "a row whose largest magnitude is negative saturates")
         if f.get(f"{axis} is None") is True:
